@@ -8,6 +8,7 @@ import (
 	"runtime/debug"
 	"sort"
 	"strconv"
+	"strings"
 	"testing"
 	"time"
 
@@ -128,6 +129,22 @@ func TestWorker(t *testing.T) {
 		fmt.Printf("DSIM-INFRA unknown property %q\n", prop)
 		os.Exit(2)
 	}
+	// Warm-up: the first run of a process triggers lazy initialisation (sync.Once bodies,
+	// package caches, pools) whose map creations and selects draw from the seeded runtime
+	// stream; a run must behave the same whether it is the first of its process (a replay)
+	// or the 500th (exploration). A throw-away run per process absorbs those one-time
+	// effects; the order-permuting self-test checks that nothing else leaks between runs.
+	if os.Getenv("DSIM_WARMUP") != "0" {
+		for i := 0; i < 3; i++ {
+			runSeed(t, spec, dsim.Mix(0x5eed, dsim.HashStr(spec.ID), uint64(i)), nil, false, nil, false)
+		}
+		for i, mk := range spec.Warm {
+			ws := *spec
+			ws.New = mk
+			runSeed(t, &ws, dsim.Mix(0x5eed, dsim.HashStr(spec.ID), uint64(100+i)), nil, false, nil, false)
+		}
+		dsim.LastInfra = nil
+	}
 	switch mode {
 	case "explore":
 		explore(t, spec)
@@ -139,6 +156,12 @@ func TestWorker(t *testing.T) {
 		hashes(t, spec)
 	case "dump":
 		seed := envU64("DSIM_SEED_EXACT", 1)
+		// DSIM_PRE: seeds to run first in this process (debugging history dependence)
+		for _, ps := range strings.Split(os.Getenv("DSIM_PRE"), ",") {
+			if n, err := strconv.ParseUint(strings.TrimSpace(ps), 10, 64); err == nil {
+				runSeed(t, spec, n, nil, false, nil, false)
+			}
+		}
 		res := runSeed(t, spec, seed, nil, false, nil, true)
 		emit(map[string]any{"log": res.Log, "violation": res.Violation, "trace_hash": strconv.FormatUint(res.TraceHash, 16)})
 	default:
@@ -272,9 +295,22 @@ func hashes(t *testing.T, spec *props.Spec) {
 	base := envU64("DSIM_SEED", 1)
 	runs := envInt("DSIM_RUNS", 32)
 	out := map[string]string{}
-	for i := 0; i < runs; i++ {
+	// DSIM_ORDER permutes the order in which the seeds are run (history independence)
+	order := envInt("DSIM_ORDER", 0)
+	for j := 0; j < runs; j++ {
+		i := j
+		switch order {
+		case 1:
+			i = runs - 1 - j
+		case 2:
+			i = (j*7 + 3) % runs // 7 is coprime to 48
+		}
 		seed := dsim.Mix(base, dsim.HashStr(spec.ID), 999, uint64(i))
-		res := runSeed(t, spec, seed, nil, false, nil, false)
+		keep := envU64("DSIM_DUMP_SEED", 0) == seed
+		res := runSeed(t, spec, seed, nil, false, nil, keep)
+		if keep {
+			_ = os.WriteFile(os.Getenv("DSIM_DUMP_FILE"), []byte(strings.Join(res.Log, "\n")), 0o644)
+		}
 		if dsim.LastInfra != nil {
 			out[strconv.FormatUint(seed, 10)] = "infra:" + dsim.LastInfra.Msg
 			continue
